@@ -281,6 +281,8 @@ func (rr *DefaultRelationsResolver) parseAdd(states S) S {
 			visited = append(visited, name)
 			changed = true
 		}
+		// follow the Add relations of the states implied in this pass
+		states = ret
 	}
 
 	return ret
